@@ -233,12 +233,13 @@ theorem α_drain (s : St) : α (drain s) = { α s with kinds := [], aborts := 0,
   simp [α, drain]
 
 /-- the abstract state right after `Irc.reset()` / `Irc()` -/
-def freshAbs (cfg : Cfg) (epoch aborts : Nat) (evOk wantedOk : Bool) : Abs :=
+def freshAbs (cfg : Cfg) (epoch aborts : Nat) (evOk wantedOk : Bool) (pol : List (Str × Str)) (forced : Bool) (sock : Nat) : Abs :=
   { fsm := .INIT_CAP_NEGOTIATION, saslAuth := false, afterConnect := false, endCount := 0, epoch := epoch,
     ackSasl := false, kinds := connectKinds cfg, aborts := aborts, acked := false, slowOk := true, evOk := evOk,
-    wantedOk := wantedOk }
+    wantedOk := wantedOk, policies := pol, forced := forced, sock := sock }
 
-theorem α_initSt (cfg : Cfg) (base : St) : α (initSt cfg base) = freshAbs cfg 0 0 true (α base).wantedOk := by
+theorem α_initSt (cfg : Cfg) (base : St) :
+    α (initSt cfg base) = freshAbs cfg 0 0 true (α base).wantedOk (α base).policies (α base).forced (α base).sock := by
   have hw := wanted_resetSasl cfg base
   unfold initSt queueConnectMessages transition clearForReset
   have h := tab_init
@@ -248,7 +249,7 @@ theorem α_initSt (cfg : Cfg) (base : St) : α (initSt cfg base) = freshAbs cfg 
 /-- an invariant of the abstract state that ignores the queue kinds, the abort count and the side flags -/
 structure AbsInv (cfg : Cfg) (I : Abs → Prop) : Prop where
   move : ∀ {K : Kind → Bool} {a b : Abs}, I a → Move cfg K a b → I b
-  fresh : ∀ e n o w, I (freshAbs cfg e n o w)
+  fresh : ∀ e n o w p f k, I (freshAbs cfg e n o w p f k)
   drain : ∀ a, I a → I { a with kinds := [], aborts := 0, slowOk := true, evOk := true }
 
 theorem AbsInv.moves {cfg : Cfg} {I : Abs → Prop} (inv : AbsInv cfg I) {K : Kind → Bool} {a b : Abs}
@@ -261,7 +262,7 @@ theorem AbsInv.reach {cfg : Cfg} {I : Abs → Prop} (inv : AbsInv cfg I) {base s
   induction r with
   | start =>
     show I (α (C08.drain (initSt cfg base)))
-    rw [α_drain, α_initSt]; exact inv.drain _ (inv.fresh _ _ _ _)
+    rw [α_drain, α_initSt]; exact inv.drain _ (inv.fresh _ _ _ _ _ _ _)
   | op o _ ih =>
     cases o with
     | msg m =>
@@ -269,13 +270,13 @@ theorem AbsInv.reach {cfg : Cfg} {I : Abs → Prop} (inv : AbsInv cfg I) {base s
       rw [α_drain]; exact inv.drain _ (inv.moves ih (ref_feedMsg m _))
     | reset =>
       show I (α (C08.drain (ircReset cfg _)))
-      rw [α_drain, α_ircReset]; exact inv.drain _ (inv.fresh _ _ _ _)
+      rw [α_drain, α_ircReset]; exact inv.drain _ (inv.fresh _ _ _ _ _ _ _)
 
 theorem absInv_end (cfg : Cfg) : AbsInv cfg EndInv :=
-  ⟨fun h m => endInv_move h m, fun _ _ _ _ => .inl rfl, fun _ h => h⟩
+  ⟨fun h m => endInv_move h m, fun _ _ _ _ _ _ _ => .inl rfl, fun _ h => h⟩
 
 theorem absInv_req (cfg : Cfg) : AbsInv cfg (ReqInv cfg) :=
-  ⟨fun h m => reqInv_move h m, fun _ _ _ _ _ hc => by
+  ⟨fun h m => reqInv_move h m, fun _ _ _ _ _ _ _ _ hc => by
       rcases hc with hc | hc | hc
       · simp [freshAbs, pastNegotiation] at hc
       · simp [freshAbs] at hc
@@ -283,7 +284,7 @@ theorem absInv_req (cfg : Cfg) : AbsInv cfg (ReqInv cfg) :=
    fun _ h => h⟩
 
 theorem absInv_sasl (cfg : Cfg) : AbsInv cfg SaslQ := by
-  refine ⟨fun h m => saslQ_move h m, fun e n o w => ?_, fun a h => ⟨h.1, h.2.1, by simp⟩⟩
+  refine ⟨fun h m => saslQ_move h m, fun e n o w p f k => ?_, fun a h => ⟨h.1, h.2.1, by simp⟩⟩
   refine ⟨by simp [freshAbs], by simp [freshAbs, isSaslState], ?_⟩
   intro k hk hs
   rcases connectKinds_mem hk with rfl | rfl <;> simp [Kind.sasl] at hs
